@@ -157,7 +157,38 @@ def unwrap_like(X, cell):
     return X
 
 
+def clearly_outside(ctx, spec, result):
+    """'Nothing is reported that lies clearly outside the tolerance': for every reported match whose least-squares fit is
+    not already within atol, minimise the largest per-atom distance over proper rigid motions (started from the least-squares
+    fit AND from the rotation the search itself returned, so the value found is never worse than the implementation's own
+    fit); flag only above sqrt(3)*atol, the most a per-coordinate acceptance of atol can mean."""
+    if not isinstance(result, tuple):
+        return
+    idxs, positions, quats = result
+    P = np.array(spec["pattern"]["positions"], float).reshape(-1, 3)
+    atol = spec["atol"]
+    if len(P) < 2:
+        return
+    for m, tup in enumerate(idxs):
+        X = np.asarray(positions[m], float).reshape(-1, 3)
+        if X.shape != P.shape:
+            continue
+        R, t, dev = geom.kabsch(P, X)
+        if dev.max() <= atol:
+            continue
+        try:
+            starts = [np.asarray(quats[m].as_matrix(), float)]
+        except Exception:
+            starts = []
+        mm = geom.minimax_fit(P, X, starts=starts)
+        ctx.count("minimax_fits")
+        if mm > np.sqrt(3.0) * (atol + 1e-5 * (np.abs(X).max() + 1.0)) * 1.01 + 1e-9:
+            raise Violation("c02:reported-clearly-outside", "match %s: under every proper rigid motion some atom stays %.4g away from its pattern position (atol %g)"
+                            % ([int(i) for i in tup], mm, atol), site="find")
+
+
 def oracle_c02(ctx, spec, result, label="", refgroups="compute"):
+    clearly_outside(ctx, spec, result)
     idxs = result[0] if isinstance(result, tuple) else result
     groups = [frozenset(int(i) for i in t) for t in idxs]
     seen = set()
